@@ -19,11 +19,18 @@ var (
 	verifListenCalls int
 	verifReplyScript func(i int, pc *verifPacketConn)
 	verifListenMu    sync.Mutex
+	// runs once, when the next outbound socket is about to be opened
+	verifOnTargetListen func()
 )
 
 func verifListenPacket(network, address string) (net.PacketConn, error) {
 	if address != "" {
 		return verifListenSharedPacket(address)
+	}
+	if verifOnTargetListen != nil {
+		hook := verifOnTargetListen
+		verifOnTargetListen = nil
+		hook() // something else happens while this association is being set up
 	}
 	verifListenMu.Lock()
 	defer verifListenMu.Unlock()
@@ -621,13 +628,18 @@ func VH_C03_two_listeners_one_handler() {
 		clients[i].reads = []verifRead{{data: verifPack(key0, verifSocksV4([]byte{93, 184, 216, byte(34 + i)}, 443, p[i])), addr: verifClientAddrs[i]}}
 	}
 	calls := 0
-	h.SetTargetIPValidator(func(ip net.IP) error {
-		calls++
-		if calls == 1 {
-			h.Handle(clients[1]) // the other listener's loop gets its datagram now
-		}
-		return nil
-	})
+	if verifFlag("during-validation") {
+		h.SetTargetIPValidator(func(ip net.IP) error {
+			calls++
+			if calls == 1 {
+				h.Handle(clients[1]) // the other listener's loop gets its datagram now
+			}
+			return nil
+		})
+	} else {
+		// ... or a little later, while the first one's outbound socket is being opened
+		verifOnTargetListen = func() { h.Handle(clients[1]) }
+	}
 	h.Handle(clients[0])
 	verifQuiesce()
 	verifAssert("C03.two-listeners.both-forwarded", len(verifTargets) == 2)
@@ -796,4 +808,38 @@ func VH_C04_datagram_during_teardown() {
 	_, stillRunning := <-done
 	verifAssert("C04.teardown.handle-returned", !stillRunning && verifBlockedIn("timedCopy") == 0)
 	verifReach("C04.teardown.done", true)
+}
+
+// C05: the check applies to every datagram of an association: a forbidden destination that was
+// refused once is refused again, whatever was sent before
+func VH_C05_udp_refused_target_again() {
+	verifResetNet()
+	cl, specs, _ := verifMakeList(1, 1, false)
+	key := verifKey(specs[0].cipher, verifSecrets[specs[0].secret])
+	um := &verifUDPMetrics{}
+	h := NewPacketHandler(defaultNatTimeout, cl, um, nil)
+	client := &verifPacketConn{name: "client"}
+	bad := verifBytes("forbidden", 4)
+	verifAssume(verifMustRejectV4(bad))
+	n := 2 + verifChoice("repeats", 2)
+	client.reads = []verifRead{{data: verifPack(key, verifSocksV4([]byte{93, 184, 216, 34}, 443, []byte("ok"))), addr: verifClientAddrs[0]}}
+	for i := 0; i < n; i++ {
+		client.reads = append(client.reads, verifRead{data: verifPack(key, verifSocksV4(bad, 443, []byte("no"))), addr: verifClientAddrs[0]})
+	}
+	h.Handle(client)
+	verifQuiesce()
+	for _, t := range verifTargets {
+		for _, w := range t.writes {
+			verifAssert("C05.refused-again.destination-allowed", !verifMustReject(w.addr.(*net.UDPAddr).IP))
+		}
+	}
+	if len(um.entries) == 1 {
+		verifAssert("C05.refused-again.every-attempt-refused", len(um.entries[0].fromClient) == n+1)
+		for i, r := range um.entries[0].fromClient {
+			if i > 0 {
+				verifAssert("C05.refused-again.status", r.status != "OK" && r.b == 0)
+			}
+		}
+	}
+	verifReach("C05.refused-again.done", len(um.entries) == 1)
 }
